@@ -59,7 +59,8 @@ def gen_scaffolds(rng, bpt, fasta_backed=True, n=None, hap_prefix=None, edge_gap
             if pos < target - 2 and rng.random() < 0.8:
                 g = min(target - pos - 1, rng.choice([1, 5, 10, 100, 200]))
                 if g > 0:
-                    rows.append(["G", g, "scaffold"])
+                    gt = "scaffold" if fasta_backed else rng.choice(["scaffold", "scaffold", "scaffold", "contig", "short_arm", "centromere", "repeat"])
+                    rows.append(["G", g, gt])
                     pos += g
         if edge_gaps and rng.random() < 0.6:
             rows.append(["G", rng.choice([1, 2, 7, 30]), "scaffold"])  # ... or ends with one
@@ -119,7 +120,7 @@ def merge_adjacent_fragments(scaffolds):
     return scaffolds
 
 
-def render_tpf(scaffolds, decorated=False):
+def render_tpf(scaffolds, decorated=False, alt_spelling=False):
     out = io.StringIO()
     if decorated:
         out.write("## made by a pipeline\n##\n\n")
@@ -129,6 +130,9 @@ def render_tpf(scaffolds, decorated=False):
         for r in sc["rows"]:
             if r[0] == "G":
                 t = {"scaffold": "TYPE-2", "contig": "TYPE-3"}.get(r[2], r[2].upper().replace("_", "-"))
+                if alt_spelling:
+                    # spellings the parser also accepts
+                    t = {"scaffold": "SCAFFOLD", "contig": "CONTIG", "short_arm": "SHORT_ARM", "centromere": "centromere"}.get(r[2], t)
                 out.write(f"GAP\t{t}\t{r[1]}\n")
             else:
                 st = {1: "PLUS", -1: "MINUS"}[r[4]]
@@ -365,7 +369,7 @@ def gen_workload(rng, fasta_backed=True, tagging=True, haps=None, rich_tags=Fals
         "bpt": bpt,
         "scaffolds": scaffolds,
         "map": m,
-        "tpf": render_tpf(scaffolds, decorated=rng.random() < 0.3),
+        "tpf": render_tpf(scaffolds, decorated=rng.random() < 0.3, alt_spelling=rng.random() < 0.3),
         "agp": render_agp(scaffolds),
         "pretext_agp": render_pretext_agp(m),
     }
